@@ -108,6 +108,17 @@ def _verify_one(item):
     }
 
 
+def _monitor_one(item):
+    """Run one contract's bounded monitor (in a worker process)."""
+    modnames, key, ncases, sd = item
+    reg, cs = load_contracts(modnames)
+    c = reg.by_target[key]
+    try:
+        return key, monitor(c, ncases, random.Random(sd)), None
+    except Exception as e:  # noqa: BLE001
+        return key, None, f"monitor for {c.target}: {type(e).__name__}: {e}\n{traceback.format_exc(limit=5)}"
+
+
 def monitor(contract, ncases, rng, on_case=None):
     """Run the real function under the run-time contract on generated inputs.
     Returns (evaluated, first_violation_or_None)."""
@@ -220,12 +231,19 @@ def run_t1(rep: Report, modnames, pid=None, quick=True, monitor_cases=200):
             prev_r["canary"] = r["canary"]
     failed_targets = {t for t, r in results.items() if r["status"] != "ok" or any(o["status"] != "discharged" for o in r["obligations"])}
     monitors = {}
+    mitems = [(tuple(modnames), c.key, monitor_cases, rng.randrange(1 << 30)) for c in cs]
+    for st, r in pmap(_monitor_one, mitems, chunk=1):
+        if st != "ok":
+            rep.crash(r)
+            continue
+        key, res, err = r
+        if err is not None:
+            monitors[key] = (0, None)
+            rep.crash(err)
+        else:
+            monitors[key] = res
     for c in cs:
-        try:
-            monitors[c.key] = monitor(c, monitor_cases, rng)
-        except Exception as e:  # noqa: BLE001
-            monitors[c.key] = (0, None)
-            rep.crash(f"monitor for {c.target}: {type(e).__name__}: {e}\n{traceback.format_exc(limit=5)}")
+        monitors.setdefault(c.key, (0, None))
     # second opinion (CLI solvers on the SMT-LIB dump) only for functions whose
     # z3 verdict was 'unknown' and whose monitor found no concrete failing input
     again = [
